@@ -484,6 +484,10 @@ class _NXP:
     """Assumed shape / index-map contracts of the NumPy kernels called by cubed's block functions."""
 
     int8 = Dtype("int8", 1)
+    int16, int32, int64 = Dtype("int16", 2), Dtype("int32", 4), Dtype("int64", 8)
+    uint8, uint16, uint32, uint64 = Dtype("uint8", 1), Dtype("uint16", 2), Dtype("uint32", 4), Dtype("uint64", 8)
+    float32, float64 = Dtype("float32", 4), Dtype("float64", 8)
+    complex64, complex128 = Dtype("complex64", 8), Dtype("complex128", 16)
 
     def _interp(self):
         return sym.cur().interp
